@@ -1,6 +1,7 @@
 import NflowsModel.Properties.C19
 import NflowsModel.Lemmas.RoundCompose
 import NflowsModel.Lemmas.RoundFlow
+import NflowsModel.Lemmas.RoundNearest
 /-!
 # C19 (continued) — the numeric clause in the standard model of floating-point arithmetic
 
@@ -10,9 +11,14 @@ are run at `RoundModel.rndX r e` — the real instance `NF.realX e` with every a
 followed by a rounding `r` with `|r x - x| ≤ u |x|` (Higham's standard model, unit roundoff `u`, any rounding direction,
 no overflow / underflow) — and compared with the exact run and with a run in a second precision.
 
-TRUSTED, not proved (Lean's `Float` / `Float32` are opaque to the kernel): IEEE binary32 / binary64 round-to-nearest
-satisfy `Rnd` with `u = 2^-24` / `2^-53` away from overflow and underflow, so that the driver at `float32X` / `floatX`
-is `rndX r32 e` / `rndX r64 e` for such roundings.  Overflow, NaN and the "stays finite" half of C19 are outside this
+The model is NOT vacuous and not informal: `RoundNearest.fl p` is round-to-nearest, ties-to-even, to `p` significant bits with an
+unbounded exponent range, `round_to_nearest_even_is_standard_model` proves `Rnd 2^-p (fl p)` for every real, and
+`ieee_round_to_nearest_is_fl` shows that ANY function meeting IEEE-754's specification of `roundTiesToEven` (a finite number of
+the format, nearest, even significand at a tie) coincides with `fl 24` / `fl 53` on the normal range of binary32 / binary64.
+TRUSTED, not proved (Lean's `Float` / `Float32` are opaque to the kernel): (1) each primitive of the driver at `float32X` / `floatX`
+returns `roundTiesToEven` of the exact real result (libm transcendentals are accurate to a few ulp: a `Rnd (k·u)`), (2) no
+intermediate result leaves the normal range (no overflow, no subnormal result) — under (1) and (2) the driver's run is the run at
+`rndX (fl 24) e` / `rndX (fl 53) e` on the values it meets.  Overflow, NaN and the "stays finite" half of C19 are outside this
 model and stay with the executed correspondence.  Programs with data-dependent branches on rounded non-zero constants
 (spline bin search, Sigmoid/Tanh domain checks) are NOT analysed here.
 -/
@@ -167,5 +173,45 @@ theorem flow_two_precisions_example (slope : Float) (Ls : ℝ) (hσ : |e slope| 
       flowFwd (rndX (fun x => x * (1 + (2 : ℝ) ^ (-53 : ℤ))) e) (exFlow slope Ls) [1, -2] = .ok (y', l') ∧
       dist (toV 2 y) (toV 2 y') ≤ (2 : ℝ) ^ (-14 : ℤ) :=
   flow_example_numeric e slope Ls hσ
+
+/-! ## the standard model is realised by round-to-nearest-even (`Lemmas/RoundNearest.lean`) -/
+
+/-- round-to-nearest, ties-to-even, to `p` significant bits (unbounded exponent) has relative error at most `2^-p` at EVERY real,
+    is idempotent, monotone, returns a `p`-bit number and IS a nearest one -/
+theorem round_to_nearest_even_is_standard_model (p : ℕ) (hp : 1 ≤ p) :
+    Rnd ((2 : ℝ) ^ (-(p : ℤ))) (RoundNearest.fl p) ∧ RndIdem ((2 : ℝ) ^ (-(p : ℤ))) (RoundNearest.fl p) ∧
+    Monotone (RoundNearest.fl p) ∧ (∀ x, RoundNearest.fl p x ∈ RoundNearest.F p) ∧
+    (∀ x, ∀ y ∈ RoundNearest.F p, |RoundNearest.fl p x - x| ≤ |y - x|) :=
+  ⟨RoundNearest.fl_rnd p, RoundNearest.fl_rndIdem hp, RoundNearest.fl_mono hp, RoundNearest.fl_mem hp,
+   fun x _ hy => RoundNearest.fl_nearest hp x hy⟩
+
+/-- IEEE-754 `roundTiesToEven` on the normal range of a bounded format `(p, emin, emax)` is `fl p`: any finite number of the format
+    that is nearest to `x` and has an even normalised significand at a tie equals `fl p x` -/
+theorem ieee_round_to_nearest_is_fl {p : ℕ} (hp : 2 ≤ p) (emin emax : ℤ) {x : ℝ} (hx : x ∈ RoundNearest.normalRange p emin emax)
+    {y : ℝ} (hy : y ∈ RoundNearest.finiteFormat p emin emax)
+    (hnear : ∀ y' ∈ RoundNearest.finiteFormat p emin emax, |y - x| ≤ |y' - x|)
+    (htie : RoundNearest.IsTie p x → ∃ (m : ℕ) (k : ℤ), 2 ^ (p - 1) ≤ m ∧ m < 2 ^ p ∧ Even m ∧ |y| = (m : ℝ) * 2 ^ k) :
+    y = RoundNearest.fl p x :=
+  RoundNearest.ieee_rne_eq_fl_normalised hp emin emax hx hy hnear htie
+
+/-- the two-precision inner product at the genuine binary32 / binary64 roundings -/
+theorem dot_binary32_binary64 (xs ws : List ℝ) :
+    |LF.dot (rndOps (RoundNearest.fl 24)) xs ws - LF.dot (rndOps (RoundNearest.fl 53)) xs ws|
+      ≤ (((1 + (2 : ℝ) ^ (-24 : ℤ)) ^ (min xs.length ws.length + 1) - 1)
+          + ((1 + (2 : ℝ) ^ (-53 : ℤ)) ^ (min xs.length ws.length + 1) - 1)) * absDot xs ws :=
+  RoundNearest.dot_fl24_fl53 xs ws
+
+/-- … and a whole flow at them -/
+theorem flow_binary32_binary64 {n : ℕ} (ls : List Layer) (hwf : ∀ l ∈ ls, l.WF n) (x : List ℝ) (hx : x.length = n)
+    {y y' : List ℝ} {l l' : ℝ}
+    (hc : flowFwd (rndX (RoundNearest.fl 24) e) ls x = .ok (y, l)) (he : flowFwd (rndX (RoundNearest.fl 53) e) ls x = .ok (y', l')) :
+    dist (toV n y) (toV n y')
+      ≤ errB (stagesOf n ((2 : ℝ) ^ (-24 : ℤ)) (RoundNearest.fl 24) e ls) (toV n x) 0
+        + errB (stagesOf n ((2 : ℝ) ^ (-53 : ℤ)) (RoundNearest.fl 53) e ls) (toV n x) 0 :=
+  f32_f64_agree_flow e RoundNearest.fl24_rnd RoundNearest.fl53_rnd ls hwf x hx hc he
+
+/-- the bound `2^-p` is attained up to the factor `1 + 2^-p`: half an ulp above `1` is a tie and rounds to the even neighbour `1` -/
+theorem half_ulp_tie {p : ℕ} (hp : 2 ≤ p) : RoundNearest.fl p (1 + (2 : ℝ) ^ (-(p : ℤ))) = 1 :=
+  RoundNearest.fl_one_add_half_ulp hp
 
 end Properties.C19
